@@ -423,12 +423,64 @@ def check_ctor(rep, m, f, cls, lay, init):
     missing = sorted(x for x in need if x not in got)
     inst = "%s::%s(%s)" % (cls, cls, ",".join(f.param_ty[1:]))
     if missing:
+        # the must-init dataflow cannot add up a copy of `len` and a fill of `size - len` bytes; before alarming, the
+        # constructor is evaluated over bit expressions with the object's prior contents as symbols: a byte is
+        # undefined exactly if it still depends on them
+        verdict = _ctor_by_evaluation(m, f, missing)
+        if verdict == []:
+            rep.instance("C17.D3", 1, {"constructor": inst, "defined_bytes": len(need), "by": "evaluation of the constructor"})
+            return
+        if verdict is None:
+            rep.unproved_item("C17.D3", "constructor %s: the dataflow does not show offsets %s defined and the constructor is "
+                              "not evaluable" % (inst, _ranges(missing)))
+            return
+        missing = verdict
         names = sorted(set(need[x] for x in missing))
         rep.violation("C17.D3", inst + ":init", f.src,
                       "constructor %s leaves %d byte(s) of %s undefined on some path (offsets %s)" % (
                           inst, len(missing), ", ".join(names), _ranges(missing)))
     else:
         rep.instance("C17.D3", 1, {"constructor": inst, "defined_bytes": len(need)})
+
+
+def _ctor_by_evaluation(m, f, offsets):
+    """-> offsets (subset) that still depend on the object's contents before the
+    constructor ran, for some argument shape; [] if none; None if not evaluable"""
+    from .affine import Machine, Unsupported, const_bits, Ptr
+    sn = effects.Layouts.pointee_struct(f.param_ty[0])
+    size = m.structs[sn]["size"]
+    shapes = [[]]
+    for ty in f.param_ty[1:]:
+        if ty.endswith("*"):
+            shapes = [sh + [x] for sh in shapes for x in ("buf", "null")]
+        else:
+            shapes = [sh + [x] for sh in shapes for x in (0, 16)]
+    bad = set()
+    try:
+        for sh in shapes[:8]:
+            mc = Machine(m)
+            mc.nonlinear = True
+            this = mc.new_obj("this", size, symbolic=True)
+            args = [this]
+            for k, x in enumerate(sh):
+                if x == "buf":
+                    args.append(mc.new_obj("arg%d" % k, max(size, 64), symbolic=True))
+                elif x == "null":
+                    args.append(Ptr("null", 0))
+                else:
+                    args.append(const_bits(x, mc.width(f.param_ty[1 + k])))
+            mc.call(f.name, args)
+            got = mc.load(this, size)
+            for off in offsets:
+                for bit in got[8 * off:8 * off + 8]:
+                    if any(a is not None and a[0] == "this" for mono in bit for a in mono):
+                        bad.add(off)
+                        break
+    except Unsupported:
+        return None
+    except Exception:
+        return None
+    return sorted(bad)
 
 
 def _ranges(xs):
